@@ -175,6 +175,18 @@ def check(ctx):
                 ctx.ok(m, s, f"self.{attr} <- copy of parameter {param}")
             else:
                 ctx.fail(m, s, f"self.{attr} is not a copy of the constructor's '{param}' argument", construct=f"self.{attr} <- {canon(v)}")
+    # in-place writes through a local alias of the clamp bounds (ubtest = self.orig_ub; ubtest[..] = ..)
+    from .c20 import alias_violations
+
+    for m in T.methods.values():
+        seeds = {f"self.{a_}": frozenset({f"A:self.{a_}"}) for a_ in ("orig_lb", "orig_ub")}
+        viol, _fl = alias_violations(prog, m, seeds)
+        for node, al, what, tgt in viol:
+            if tgt in ("self.orig_lb", "self.orig_ub"):
+                continue  # direct stores are reported above
+            ctx.fail(m, node, f"{what} on '{tgt}', which may alias the transformer's stored original bounds {al}: the clamp bounds of the inverse transform are corrupted", construct=f"in-place {what} on alias of {al[0][2:]}")
+        if not viol:
+            ctx.ok(m, m.node, f"{m.short}: no in-place write through an alias of the original bounds")
     # external writers
     for fn in prog.functions():
         for t, v, s, k in iter_stores(fn.node):
